@@ -36,12 +36,17 @@ import Pog.Lemmas.ConvSerTerm
           `serializer_dict_cycle_former_witness`)
         — cycles through `list` objects and through fields annotated with an unresolved forward reference
           (`Optional["N"]`, as the generator writes self references) are cut as before                        (examples)
-    serializer_json_safe     : the result is JSON-serialisable                                                         ✗
+    serializer_json_safe     : the result is JSON-serialisable — not proved in general (the model keeps `bytearray` values and
+                               ill-typed attribute values that cattrs passes through as non-JSON `opaque` results); both
+                               recorded defects are repaired:
         — (F10 repaired: a `UUID` / `time` value now has an unstructure hook and is written as a string:
           `serializer_json_safe_former_witness`)
-        — a dict holding a model with a forward-referenced child list: the children stay live instances     (counterexample)
-    serializer_registry_dependent : (not part of the statement, found on the way) the keys of a dataclass reached through
-          a dict depend on whether its hook happens to be registered already: python names vs wire names (counterexample)
+        — (F48 repaired: the values of a dict are serialised by the same tracked recursion as the items of a list; a model
+          with a forward-referenced child list held by a dict comes out as plain data:
+          `serializer_dict_leak_former_witness`)
+    serializer_registry_dependent : (not part of the statement, found on the way; F48, repaired) the keys of a dataclass
+          held by a dict used to depend on whether its hook happened to be registered already; now the wire names, whatever
+          the registry: `serializer_registry_dependent_former_witness`
 -/
 namespace Pog.C16
 open Pog
@@ -259,7 +264,8 @@ example : serialize Codecs.exec 8 cycle2 (nodeDecls false) [] (.ref 0)
 example : serialize Codecs.exec 8 [(0, .list [.int 1, .ref 0])] [] [] (.ref 0) = .ok (.arr [.int 1, .null], []) := by rfl
 
 /-- The former second witness (F26, repaired): a dict that contains itself (`d = {}; d["x"] = d`).  The inner
-    occurrence becomes `None`, and `None`-valued entries are dropped. -/
+    occurrence becomes `None`, and `None`-valued entries are dropped.  (A dict nested in a field is cut by the guard
+    inside cattrs, a root dict — since the repair of F48 — by the serializer's own tracked recursion.) -/
 theorem serializer_dict_cycle_former_witness :
     serialize Codecs.exec 8 dictSelf [] [] (.ref 0) = .ok (.obj [], []) := by rfl
 
@@ -279,11 +285,12 @@ theorem serializer_json_safe_former_witness :
       ∧ out.toJson? = some (.obj [("u".toList, .str "123e4567-e89b-12d3-a456-426614174000".toList)]) :=
   ⟨_, _, rfl, rfl⟩
 
-/-- ✗ JSON safety — no cycle, no exotic leaf: `class Node: name: str; children: List["Node"]` (a self
-    reference as the generator writes it) held by a DICT.  The dict takes the "everything else" branch: cattrs passes
-    the children through (unresolved forward reference) and `_ensure_all_dicts` is NOT applied on that branch: the
-    result contains a live `Node` instance.  (`serialize(node)` and `serialize([node])` are fine.) -/
-theorem serializer_dict_leak_counterexample :
+/-- The former second witness against JSON safety (F48, repaired) — no cycle, no exotic leaf:
+    `class Node: name: str; children: List["Node"]` (a self reference as the generator writes it) held by a DICT.  The
+    dict used to take the "everything else" branch (cattrs on the whole dict, no `_ensure_all_dicts`) and the children
+    stayed live `Node` instances.  Now the value goes through `_serialize_with_tracking` like a list item: the result is
+    plain data, and the same as `serialize(node)` gives under the key. -/
+theorem serializer_dict_leak_former_witness :
     let Node : ClassDecl := { fields := [⟨"name".toList, .leaf .str, .required⟩,
                                          ⟨"children".toList, .list (.fwd "Node".toList), .list⟩],
                               loadMap := none, dumpMap := none }
@@ -292,20 +299,27 @@ theorem serializer_dict_leak_counterexample :
                         (2, .list [.ref 3]),
                         (3, .inst "Node".toList [("name".toList, .str "kid".toList), ("children".toList, .ref 4)]),
                         (4, .list [])]
-    serialize Codecs.exec 8 heap [("Node".toList, Node)] [] (.ref 0)
-        = .ok (.obj [("k".toList, .obj [("name".toList, .str "root".toList), ("children".toList, .arr [.leak 3])])], [])
-    ∧ (serialize Codecs.exec 8 heap [("Node".toList, Node)] [] (.ref 1)).toOption.map (fun r => r.1.toJson?.isSome) = some true :=
-  ⟨rfl, rfl⟩
+    serialize Codecs.exec 6 heap [("Node".toList, Node)] [] (.ref 0)
+        = .ok (.obj [("k".toList, .obj [("name".toList, .str "root".toList),
+                                        ("children".toList, .arr [.obj [("name".toList, .str "kid".toList),
+                                                                        ("children".toList, .arr [])]])])],
+               ["Node".toList])
+    ∧ (serialize Codecs.exec 6 heap [("Node".toList, Node)] [] (.ref 0)).toOption.map (fun r => r.1.toJson?.isSome) = some true
+    ∧ (serialize Codecs.exec 6 heap [("Node".toList, Node)] [] (.ref 0)).toOption.map (fun r => r.1)
+        = (serialize Codecs.exec 6 heap [("Node".toList, Node)] [] (.ref 1)).toOption.map
+            (fun r => PV.obj [("k".toList, r.1)]) :=
+  ⟨rfl, rfl, rfl⟩
 
-/-- The keys of a dataclass instance held by a DICT depend on the process's history: `serialize({"k": R(my_f=1)})`
-    gives `{"k": {"my_f": 1}}` when `R`'s hook has never been registered and `{"k": {"myF": 1}}` afterwards
-    (a dict is unstructured without registering anything; an instance, or a list of instances, registers). -/
-theorem serializer_registry_dependent_counterexample :
+/-- The former witness of registry dependence (F48, repaired).  `serialize({"k": R(my_f=1)})` used to give
+    `{"k": {"my_f": 1}}` when `R`'s hook had never been registered and `{"k": {"myF": 1}}` afterwards (the dict was
+    unstructured without registering anything).  The instance inside the dict now registers its class like any other:
+    the wire name in both histories. -/
+theorem serializer_registry_dependent_former_witness :
     let R : ClassDecl := { fields := [⟨"my_f".toList, .leaf .int, .required⟩],
                            loadMap := some [("myF".toList, "my_f".toList)], dumpMap := some [("my_f".toList, "myF".toList)] }
     let heap : Heap := [(0, .dict [("k".toList, .ref 1)]), (1, .inst "R".toList [("my_f".toList, .int 1)])]
     serialize Codecs.exec 6 heap [("R".toList, R)] [] (.ref 0)
-        = .ok (.obj [("k".toList, .obj [("my_f".toList, .int 1)])], [])
+        = .ok (.obj [("k".toList, .obj [("myF".toList, .int 1)])], ["R".toList])
     ∧ serialize Codecs.exec 6 heap [("R".toList, R)] ["R".toList] (.ref 0)
         = .ok (.obj [("k".toList, .obj [("myF".toList, .int 1)])], ["R".toList]) :=
   ⟨rfl, rfl⟩
